@@ -156,7 +156,9 @@ def run_shard(shard, tier, seed, acc) -> None:
     for idx, (ln, sid, ft, api) in enumerate(cells(tier, m)):
         if idx % parts != part or acc.too_many():
             continue
-        v, blob = roundtrip(rk, m, sid, plaintext(seed, ln), ft, api)
+        # every other cell of the SHA512 nonce configuration loads the root key with nothing but key and id (load_key's defaults)
+        minimal = m == "nonce" and h == "SHA512" and idx % 2 == 1
+        v, blob = roundtrip(rk, m, sid, plaintext(seed, ln), ft, api, cache=seams.make_cache(rk, minimal=True) if minimal else None)
         n += 1
         if v:
             acc.violate(v[0], ["cell", h, m, ln, sid, ft, api], v[1], size=ln + len(sid))
